@@ -525,8 +525,6 @@ Section Local.
   Qed.
 End Local.
 
-Definition op_keys (ops : list (op key)) : list key := flat_map op_key ops.
-
 Theorem refine_local : forall (ops : list (op key)),
   Forall wf_op ops -> prefix_free (op_keys ops) -> run_local ops = run_spec ops.
 Proof.
@@ -541,3 +539,31 @@ Theorem backends_agree : forall (raw_prefix : str) (F : bucket) (ops : list (op 
   foreign_ok (gen_init_prefix raw_prefix) F -> Forall wf_op ops -> prefix_free (op_keys ops) ->
   run_s3 raw_prefix F ops = run_local ops.
 Proof. intros. rewrite refine_s3, refine_local by assumption. reflexivity. Qed.
+
+(* ================================================================ decidable hypotheses *)
+Lemma wf_keyb_sound : forall k, wf_keyb k = true -> wf_key k.
+Proof.
+  intros k H. destruct k as [|a k]; [discriminate|]. split; [discriminate|].
+  unfold wf_keyb in H. rewrite forallb_forall in H. apply Forall_forall. exact H.
+Qed.
+
+Lemma wf_opb_sound : forall o, wf_opb o = true -> wf_op o.
+Proof.
+  intros o H. destruct o; cbn [wf_opb wf_op] in *; try (apply wf_keyb_sound; exact H).
+  rewrite forallb_forall in H. apply Forall_forall. exact H.
+Qed.
+
+Lemma wf_opsb_sound : forall ops, forallb wf_opb ops = true -> Forall wf_op ops.
+Proof. intros ops H. rewrite forallb_forall in H. apply Forall_forall. intros o Ho. apply wf_opb_sound. apply H. exact Ho. Qed.
+
+Lemma prefix_freeb_sound : forall ks, prefix_freeb ks = true -> prefix_free ks.
+Proof.
+  intros ks H a b Ha Hb. unfold prefix_freeb in H. rewrite forallb_forall in H. specialize (H a Ha).
+  rewrite forallb_forall in H. specialize (H b Hb). apply negb_true_iff in H. exact H.
+Qed.
+
+Lemma foreign_okb_sound : forall pfx F, foreign_okb pfx F = true -> foreign_ok pfx F.
+Proof.
+  intros pfx F H k Hk. unfold foreign_okb in H. rewrite forallb_forall in H. specialize (H k Hk).
+  apply negb_true_iff in H. exact H.
+Qed.
